@@ -758,7 +758,10 @@ int main(int argc, char *argv[])
          || detect
          || prefix
          || suffix
-         || cpd.if_changed))
+         || cpd.if_changed
+         || parsed_file
+         || dump_file_T
+         || cpd.html_file))
    {
       usage_error("Cannot use --check with output options.");
       return(EX_NOUSER);
